@@ -244,9 +244,13 @@ def execC (ms : MacroSem) : Nat → CStmt → MState → Except Stuck MState
           match e with
           | some e => execCs ms fuel e σ
           | none => .ok σ
-    | .for_ v cond body => do
+    | .for_ v cond step body => do
         let σ0 := { σ with locals := setLocal σ.locals v (.bv 32 0) }
-        loopC ms fuel v cond body σ0
+        loopC ms fuel v cond step body σ0
+    | .chain lhs1 lhs2 op2 e => do
+        -- the inner assignment, then the outer one receives the value of the inner assignment expression
+        let σ1 ← execC ms fuel (.assign lhs2 op2 e) σ
+        execC ms fuel (.assign lhs1 "=" lhs2) σ1
     | .jump e => do
         let v ← evalC ms σ e
         let v ← convC (typeOfC e) utT v
@@ -261,16 +265,16 @@ def execCs (ms : MacroSem) : Nat → List CStmt → MState → Except Stuck MSta
   | fuel+1, s :: ss, σ => do
       let σ' ← execC ms fuel s σ
       execCs ms fuel ss σ'
-def loopC (ms : MacroSem) : Nat → String → CExpr → List CStmt → MState → Except Stuck MState
-  | 0, _, _, _, _ => .error .fuel
-  | fuel+1, v, cond, body, σ => do
+def loopC (ms : MacroSem) : Nat → String → CExpr → Nat → List CStmt → MState → Except Stuck MState
+  | 0, _, _, _, _, _ => .error .fuel
+  | fuel+1, v, cond, step, body, σ => do
       let vc ← evalC ms σ cond
       let b ← truthy vc
       if b then do
         let σ1 ← execCs ms fuel body σ
         match lookupS v σ1.locals with
         | some (.bv w x) =>
-            loopC ms fuel v cond body { σ1 with locals := setLocal σ1.locals v (.bv w (x + 1)) }
+            loopC ms fuel v cond step body { σ1 with locals := setLocal σ1.locals v (.bv w (x + BitVec.ofNat w (if step == 0 then 1 else step))) }
         | _ => .error (.unbound v)
       else .ok σ
 end
